@@ -21,7 +21,7 @@ KT == { [id |-> "sel",    princ |-> "P",  realm |-> "R",  kvno |-> 2, et |-> "E"
         [id |-> "prefix", princ |-> "P1", realm |-> "R",  kvno |-> 2, et |-> "E",  ts |-> 2] }   \* P1: first component of P only
 NoEntry == [id |-> "none"]
 
-PacValues == {"none"}      \* extended to {"none", "valid", "badServerSig", "noClientInfo", "malformed"} once C19's PAC minting exists
+PacValues == {"none", "valid", "badServerSig", "noClientInfo", "malformed"}   \* PACs minted from the sample PAC, re-signed for the service key (C19's minting)
 \* ---- abstract request fields and their nominal values ------------------------------------------------------------
 Domain == [ sealedBy   |-> {"sel", "oRealm", "oKvno", "oPrinc", "oEtype", "prefix", "none"},  \* whose key sealed the ticket
             kvnoLabel  |-> {"k2", "k0", "k3", "k258"},               \* k258 = 2 + 256: equal to the entry only modulo 256
